@@ -140,6 +140,9 @@ type verifE1Htlc struct {
 	Hash     [32]byte
 	Fate     int // 0 settle, 1 fail, 2 malformed, 3 leave pending
 	Dead     bool
+	// optional TLV payload of the update_add_htlc as sent (canonical text)
+	BP string
+	CR string
 	// observed life cycle
 	EverLocked   bool // seen in both tails of the receiver
 	ResolveSent  int  // number of times a resolution was issued (re-issues after drops)
@@ -773,6 +776,11 @@ func (e *verifE1) actAdd(from int) bool {
 	if len(live) > 0 && r.Chance(1, 5) {
 		src := live[r.Intn(len(live))]
 		h.Amt, h.Expiry, h.Preimage, h.Hash = src.Amt, src.Expiry, src.Preimage, src.Hash
+		// same hash and amount with a different expiry: the outputs tie
+		// on value and script and are ordered by CLTV only (BOLT 3).
+		if r.Bool() {
+			h.Expiry = uint32(400 + r.Intn(6))
+		}
 		e.sawDuplicate = true
 	} else {
 		h.Amt = e.genAmount(from)
@@ -806,6 +814,7 @@ func (e *verifE1) actAdd(from int) bool {
 			uint64(lnwire.MinCustomRecordsTlvType + r.Intn(5)): r.Bytes(1 + r.Intn(40)),
 		}
 	}
+	h.BP, h.CR = verifAddPayload(msg.BlindingPoint, msg.CustomRecords)
 	var openKey *models.CircuitKey
 	if r.Bool() {
 		openKey = &models.CircuitKey{ChanID: lnwire.NewShortChanIDFromInt(uint64(7 + from)), HtlcID: uint64(len(e.htlcs))}
@@ -1321,6 +1330,30 @@ func (e *verifE1) checkRetransmission(i int, got []lnwire.Message) {
 		if _, ok := g[len(g)-1].(*lnwire.CommitSig); ok {
 			e.vc.Count("retransmit_fresh_sig", 1)
 			g = g[:1]
+			// ... and only when something was owed: the freshly
+			// signed commitment (now the persisted remote tip) must
+			// cover updates of ours or differ from the peer's
+			// current commitment; a signature over an unchanged
+			// commitment is not something the peer was missing.
+			st := p.ch.channelState
+			if diff, err := st.RemoteCommitChainTip(); err == nil && diff != nil {
+				tail, tip := &st.RemoteCommitment, &diff.Commitment
+				// (an update may leave the transaction unchanged, e.g.
+				// an update_fee repeating the current rate, so what is
+				// compared is how far into either update log the two
+				// commitments reach)
+				same := len(diff.LogUpdates) == 0 &&
+					tail.LocalLogIndex == tip.LocalLogIndex &&
+					tail.RemoteLogIndex == tip.RemoteLogIndex
+				if same {
+					e.viol("retransmit_exact", "fresh-sig-over-unchanged-commitment",
+						fmt.Sprintf("%s sent a fresh commitment_signed together with its retransmitted "+
+							"revocation although nothing was owed: the new remote commitment h=%d covers no update "+
+							"beyond h=%d (log indexes %d/%d) (got [%s])", p.Name, tip.CommitHeight, tail.CommitHeight,
+							tip.LocalLogIndex, tip.RemoteLogIndex, desc(got)))
+					return
+				}
+			}
 		}
 	}
 	if len(g) != len(expect) {
